@@ -49,6 +49,12 @@ CHECKS.update({
          "Seeded exploration: at every quiescent point packets_sent+packets_dropped equals the send attempts in the ledger, bytes_sent/bytes_dropped equal the accepted/refused sizes, and for unbuffered sinks the Ok/Err emit results; yield points before every counter update expose a read-modify-write split; the same figures must be read through QueuingMetricSink::stats().", SNOTE),
 })
 
+CHECKS.update({
+ "C18": ("holder", "E6", "5.6", "seeded schedule search over set/get/is_set on a fresh SingletonHolder with every atomic operation and both cell accesses as scheduling points; write-once-register oracle + vector-clock happens-before tracker using the orderings written in the source; Miri many-seeds as second opinion in the thorough tier",
+         "Seeded exploration with 2-4 tasks incl. two racing setters and readers inside the LOADING window: all reads return 'not set' or one identical, intact winner; the first completed set wins; reads invoked after it returned report set; and every read of the unsafe cell must happen-after the initialising write under the C11 rules (release sequences, acquire loads/RMWs, failed-CAS orderings, spawn edges) even though the simulated run itself is sequentially consistent. Thorough tier adds the unhooked code under Miri (weak-memory emulation + data-race detector), independent of the tracker.",
+         "trusted base: the happens-before tracker in dsim/src/hb.rs (not a full C11 model: no fences, no consume, SeqCst treated as AcqRel), the two tracer calls placed next to the raw-pointer dereferences; Miri for the second opinion"),
+})
+
 def main():
     hooks_commits = subprocess.run("git -C /repo log --format=%H --grep='^verif hooks'", shell=True, capture_output=True, text=True).stdout.split()
     checks = []
@@ -62,7 +68,7 @@ def main():
             "replay_cmd_template": f"./check {pid} --replay {{path}}",
             "engine": eng,
             "level_claimed": {"category": "exploration", "text": text, "design_ref": f"DESIGN.md section {ref}"},
-            "level_note": note + "; " + SIMNOTE if eng != "linebuf" else note + "; single task, no scheduler involved; sampling, not proof",
+            "level_note": (note + "; single task, no scheduler involved; sampling, not proof") if eng == "linebuf" else (note + "; " + SIMNOTE),
             "technique": "deterministic simulation with fault injection: " + tech,
         })
     claimed = set(CHECKS)
@@ -85,6 +91,7 @@ def main():
             {"name": "dsim", "path": "dsim/", "serves_properties": sorted(claimed), "kind_free_text": "simulation kernel (real threads, one runs at a time, seeded scheduler, quiescence detection, teardown) + pass-through shims"},
             {"name": "queue", "path": "ws/engines/src/e3.rs", "serves_properties": ["C08", "C09", "C10", "C11", "C15", "C16"], "kind_free_text": "E3: the real QueuingMetricSink (worker thread, sentinel respawn, crossbeam channel, counters) as simulated tasks against a scripted wrapped sink"},
             {"name": "sockets", "path": "ws/engines/src/e5.rs", "serves_properties": ["C12", "C13", "C14"], "kind_free_text": "E5: socket-backed sinks over simulated datagram sockets, 1-4 emitter tasks sharing a sink / client / queuing wrapper"},
+            {"name": "holder", "path": "ws/engines/src/e6.rs", "serves_properties": ["C18"], "kind_free_text": "E6: SingletonHolder under simulated tasks with a happens-before tracker; miri-c18/ is the Miri second opinion"},
             {"name": "linebuf", "path": "ws/engines/src/e2.rs", "serves_properties": ["C05", "C06", "C07", "C19"], "kind_free_text": "E2: histories of emit/flush/drop on the line-buffering writer and the buffered sinks with a per-write fault plan; reference model in ws/engines/src/linemodel.rs"},
         ],
         "checks": checks,
